@@ -2622,7 +2622,10 @@ class LogicalBinOpMonad(BoolMonad):
         assert len(operands) >= 2
         items = []
         for operand in operands:
-            if operand.type is not bool: items.append(operand.nonzero())
+            if operand.type is not bool:
+                item = operand.nonzero()
+                item.negate = operand.negate  # `not x` for a missing x is true: x.negate() knows that, the negated comparison x.nonzero() does not
+                items.append(item)
             elif isinstance(operand, LogicalBinOpMonad) and monad.binop == operand.binop:
                 items.extend(operand.operands)
             else: items.append(operand)
